@@ -1263,7 +1263,7 @@ func TestVerifC10(t *testing.T) {
 		phase("numbers")
 		c10Small(c, "lists", c10AList, vk.Pick(c, 6, 7), plain, false)
 		phase("lists")
-		c10Small(c, "wide-numbers", c10AWide, vk.Pick(c, 4, 6), plain, false)
+		c10Small(c, "wide-numbers", c10AWide, vk.Pick(c, 4, 5), plain, false)
 		c10Small(c, "wide-numbers/input-channel", c10AWide, vk.Pick(c, 3, 4), plain, true)
 		c10Small(c, "wide-numbers/elvish-callbacks", c10AWide, vk.Pick(c, 3, 4), cbMixed, false)
 		phase("wide-numbers")
